@@ -297,6 +297,8 @@ type World struct {
 	opNext int
 	// HTTPDoer answers request_uri / jwks_uri fetches (no network).
 	Fetch func(url string) (int, string)
+	// Abandon, if set, is asked after NewAccessRequest (and the TokenMuts) whether the request is given up before NewAccessResponse.
+	Abandon func(fosite.AccessRequester) bool
 	// JWKSSettle waits until the shipped JWKS fetcher's cache has absorbed pending writes (RealJWKS worlds only).
 	JWKSSettle func()
 	// IDAlg, if set, is written into the ID-token header of every session the harness creates
